@@ -5,6 +5,7 @@ package main
 
 import (
 	"fmt"
+	"os"
 	"strings"
 
 	"verifharness/internal/gen"
@@ -36,6 +37,8 @@ type exprCase struct {
 	Inner2   string   `json:"inner2,omitempty"` // right operand
 	BinOp    string   `json:"binop,omitempty"`
 	Modelled bool     `json:"modelled"`
+	// Hint: a selector of the expression (metric, offset) used only to aim evaluation times at its samples
+	Hint *selSpec `json:"-"`
 }
 
 var modelledFns = []string{"rate", "increase", "delta", "irate", "idelta", "sum_over_time", "count_over_time", "avg_over_time",
@@ -163,18 +166,34 @@ func genSelector(r *gen.Rand) exprCase {
 	return exprCase{Form: "selector", Sel: sel, Expr: sel.text(0), Modelled: true}
 }
 
+// functions over instant vectors (differential only)
+func genInstFn(r *gen.Rand) exprCase {
+	sel := genSel(r, "")
+	fn := gen.Pick(r, []string{"abs", "ceil", "floor"})
+	return exprCase{Form: "instfn", Fn: fn, Hint: sel, Expr: fmt.Sprintf("%s(%s)", fn, sel.text(0))}
+}
+
 // vector-valued operand: selector or range function
 func genVecOperand(r *gen.Rand) exprCase {
-	if r.Chance(1, 2) {
-		return genSelector(r)
+	var e exprCase
+	switch r.Intn(7) {
+	case 0, 1, 2:
+		e = genSelector(r)
+	case 3:
+		e = genInstFn(r)
+	default:
+		e = genRangeFn(r, false)
 	}
-	return genRangeFn(r, false)
+	if e.Hint == nil {
+		e.Hint = e.Sel
+	}
+	return e
 }
 
 func genAgg(r *gen.Rand) exprCase {
 	in := genVecOperand(r)
 	op := gen.Pick(r, []string{"sum", "avg", "min", "max", "count"})
-	e := exprCase{Form: "agg", AggOp: op, Inner: in.Expr, Modelled: true}
+	e := exprCase{Form: "agg", AggOp: op, Inner: in.Expr, Modelled: true, Hint: in.Hint}
 	all := []string{"job", "instance", "env", "zone", "nolabel", "__name__"}
 	n := []int{0, 1, 1, 2, 2, 3}[r.Intn(6)]
 	seen := map[string]bool{}
@@ -211,6 +230,34 @@ func genScalarLit(r *gen.Rand) string {
 	return gen.Pick(r, []string{"0", "1", "2", "10", "0.5", "-3", "100", "2.25", "1e3"})
 }
 
+// aggregation with an explicit by / without clause over several labels (some absent on part of the series)
+func genGroupedAgg(r *gen.Rand, in exprCase, without bool, g []string) string {
+	op := gen.Pick(r, []string{"sum", "avg", "min", "max", "count"})
+	kw := "by"
+	if without {
+		kw = "without"
+	}
+	if r.Bool() {
+		return fmt.Sprintf("%s %s (%s) (%s)", op, kw, strings.Join(g, ","), in.Expr)
+	}
+	return fmt.Sprintf("%s(%s) %s (%s)", op, in.Expr, kw, strings.Join(g, ","))
+}
+
+func genGrouping(r *gen.Rand) []string {
+	all := []string{"job", "instance", "env", "zone", "nolabel"}
+	n := r.Range(1, 3)
+	var g []string
+	seen := map[string]bool{}
+	for len(g) < n {
+		l := gen.Pick(r, all)
+		if !seen[l] {
+			seen[l] = true
+			g = append(g, l)
+		}
+	}
+	return g
+}
+
 func genBinop(r *gen.Rand) exprCase {
 	e := exprCase{Form: "binop"}
 	isCmp := r.Chance(1, 2)
@@ -222,17 +269,41 @@ func genBinop(r *gen.Rand) exprCase {
 		}
 	}
 	e.BinOp = op
-	switch r.Intn(6) {
+	switch r.Intn(10) {
 	case 0, 1: // vector op scalar
 		l := genVecOperand(r)
-		if r.Chance(1, 4) {
-			l = genAgg(r)
-		}
+		e.Hint = l.Hint
 		e.Inner, e.Inner2 = l.Expr, genScalarLit(r)
 	case 2: // scalar op vector
 		rr := genVecOperand(r)
+		e.Hint = rr.Hint
 		e.Inner, e.Inner2 = genScalarLit(r), rr.Expr
-	case 3: // vector op vector, one-to-one on all labels: two metrics that share label sets
+	case 3, 4: // aggregation by / without (...) op scalar, both orders
+		var a string
+		in := genVecOperand(r)
+		e.Hint = in.Hint
+		if r.Chance(1, 3) {
+			ag := genAgg(r)
+			a, e.Hint = ag.Expr, ag.Hint
+		} else {
+			a = genGroupedAgg(r, in, r.Chance(2, 3), genGrouping(r))
+		}
+		if r.Chance(1, 4) {
+			e.Inner, e.Inner2 = genScalarLit(r), a
+		} else {
+			e.Inner, e.Inner2 = a, genScalarLit(r)
+		}
+	case 5: // aggregation without (G) op aggregation without (G): one-to-one on the remaining labels
+		g := genGrouping(r)
+		wo := r.Chance(2, 3)
+		in1 := genVecOperand(r)
+		in2 := in1
+		if r.Bool() {
+			in2 = genVecOperand(r)
+		}
+		e.Hint = in1.Hint
+		e.Inner, e.Inner2 = genGroupedAgg(r, in1, wo, g), genGroupedAgg(r, in2, wo, g)
+	case 6: // vector op vector, one-to-one on all labels: two metrics that share label sets
 		a := &selSpec{Metric: "mem_usage"}
 		b := &selSpec{Metric: "mem_limit"}
 		if r.Chance(1, 2) {
@@ -245,10 +316,13 @@ func genBinop(r *gen.Rand) exprCase {
 		if r.Chance(1, 2) {
 			a, b = b, a
 		}
+		e.Hint = a
 		e.Inner, e.Inner2 = a.text(0), b.text(0)
-	case 4: // vector op vector with on / ignoring after aggregation (one-to-one by construction)
+	case 7, 8: // vector op vector with on / ignoring after aggregation (one-to-one by construction)
 		g := gen.Pick(r, [][]string{{"job"}, {"instance"}, {"job", "instance"}, {"env"}})
-		a := fmt.Sprintf("sum by (%s) (%s)", strings.Join(g, ","), genVecOperand(r).Expr)
+		in := genVecOperand(r)
+		e.Hint = in.Hint
+		a := fmt.Sprintf("sum by (%s) (%s)", strings.Join(g, ","), in.Expr)
 		b := fmt.Sprintf("%s by (%s) (%s)", gen.Pick(r, []string{"sum", "max", "count", "avg"}), strings.Join(g, ","), genVecOperand(r).Expr)
 		mod := ""
 		if r.Chance(1, 2) {
@@ -266,6 +340,7 @@ func genBinop(r *gen.Rand) exprCase {
 			e.Inner, e.Inner2 = genScalarLit(r), genScalarLit(r)
 		} else {
 			a := genVecOperand(r)
+			e.Hint = a.Hint
 			e.Inner, e.Inner2 = a.Expr, a.Expr
 		}
 	}
@@ -280,13 +355,38 @@ func paren(s string) string {
 	return s
 }
 
+// genWithoutCmp: comparison (no bool) between a scalar and an aggregation that uses without(...)
+func genWithoutCmp(r *gen.Rand) exprCase {
+	e := exprCase{Form: "binop"}
+	in := genVecOperand(r)
+	e.Hint = in.Hint
+	g := genGrouping(r)
+	if r.Chance(1, 8) {
+		g = nil
+	}
+	a := genGroupedAgg(r, in, true, g)
+	e.BinOp = gen.Pick(r, cmpOps)
+	if r.Chance(1, 3) {
+		e.Inner, e.Inner2 = genScalarLit(r), a
+	} else {
+		e.Inner, e.Inner2 = a, genScalarLit(r)
+	}
+	e.Expr = fmt.Sprintf("%s %s %s", paren(e.Inner), e.BinOp, paren(e.Inner2))
+	return e
+}
+
 func genExpr(r *gen.Rand) exprCase {
-	switch r.Intn(10) {
-	case 0, 1:
+	if os.Getenv("C18_ONLY") == "without-cmp" {
+		return genWithoutCmp(r)
+	}
+	switch r.Intn(13) {
+	case 0, 1, 2:
 		return genSelector(r)
-	case 2, 3, 4, 5:
+	case 3:
+		return genInstFn(r)
+	case 4, 5, 6, 7:
 		return genRangeFn(r, true)
-	case 6, 7:
+	case 8, 9:
 		return genAgg(r)
 	default:
 		return genBinop(r)
